@@ -411,6 +411,25 @@ Proof.
   - split. discriminate. intros ->. unfold Qc_eq_bool in E. simpl in E. discriminate.
 Qed.
 
+Lemma pipeline_inconsistent : forall tc use_memo P q e D kq kes,
+    break_cycles_m tc use_memo (wp_graph P) (ai_of P) [q] e = Some (D, [kq], kes) ->
+    (pipeline tc use_memo P q e = Some PInconsistent <-> pipe_wmc P D kes = 0).
+Proof.
+  intros tc um P q e D kq kes BC. unfold pipeline. rewrite BC.
+  rewrite <- (normalize_inconsistent (pipe_wmc P D (kq :: kes)) (pipe_wmc P D kes)).
+  split. intros H. injection H. auto. intros ->. reflexivity.
+Qed.
+
+Lemma wf_srcb_sound : forall P, wf_srcb P = true -> wf_src P.
+Proof.
+  intros P H. unfold wf_srcb in H. rewrite !andb_true_iff in H. destruct H as [[[H1 H2] H3] H4].
+  rewrite forallb_forall in H3, H4. constructor.
+  - apply nodupb_sound; auto.
+  - apply nodupb_sound; auto.
+  - intros g Hg Hin. apply H3 in Hg. apply negb_true_iff in Hg. apply existsb_Neqb_In in Hin. congruence.
+  - intros id Hid. apply existsb_Neqb_In. apply H4; auto.
+Qed.
+
 (* the compiled circuits: any circuit the verified checker accepts may replace a count *)
 Lemma circuit_is_count : forall P D ks C,
     ModelCircuit.check_ddnnf (length D) C (cond_cnf P D ks) = true -> pipe_eval P D C = pipe_wmc P D ks.
